@@ -388,6 +388,7 @@ type invoker func(c *Call, ops []*opInst) []reflect.Value
 // runStats accumulates per-case statistics.
 type runStats struct {
 	calls, written, unchangedChecked, poisonSlots, sentinelSlots, writeOnlySlots, retChecked int64
+	zeroCalls, exactZeros                                                                    int64
 	multi                                                                                    bool // some written element depends on ≥ 2 operand elements
 }
 
@@ -404,6 +405,43 @@ type fillSpec struct {
 	Pattern uint64
 	Slack   int
 	Finite  bool
+	// Zero, when non-nil, selects the exact-zero sweep: every other stored
+	// element of every operand is made non-zero and the elements selected by
+	// the mask are exactly 0 (0+0i).
+	Zero *zeroMask
+}
+
+// zeroMask places exact zeros in one operand: in a vector the elements at
+// the given positions; in a matrix every stored element of the given rows
+// (Axis 0) or columns (Axis 1). Positions are symbolic: 0 = first,
+// 1 = middle (extent/2), 2 = last.
+type zeroMask struct {
+	Op   int   // operand index in Routine.Ops
+	Axis int   // 0 = vector element / matrix row, 1 = matrix column
+	Pos  []int // symbolic positions
+}
+
+// resolve maps the symbolic positions to distinct logical indices for extent n.
+func (z *zeroMask) resolve(n int) []int {
+	var out []int
+	for _, s := range z.Pos {
+		i := [3]int{0, n / 2, n - 1}[s]
+		if i < 0 || i >= n {
+			continue
+		}
+		dup := false
+		for _, j := range out {
+			dup = dup || j == i
+		}
+		if !dup {
+			out = append(out, i)
+		}
+	}
+	return out
+}
+
+func (z *zeroMask) String() string {
+	return fmt.Sprintf("zero(op%d axis%d %v)", z.Op, z.Axis, z.Pos)
 }
 
 func (f fillSpec) String() string {
@@ -411,7 +449,53 @@ func (f fillSpec) String() string {
 	if f.Finite {
 		g = "finite"
 	}
-	return fmt.Sprintf("%d/slack%d/%s", f.Pattern, f.Slack, g)
+	s := fmt.Sprintf("%d/slack%d/%s", f.Pattern, f.Slack, g)
+	if f.Zero != nil {
+		s += "/" + f.Zero.String()
+	}
+	return s
+}
+
+// nonZero replaces an exact zero of the random fill by a non-zero value.
+func nonZero(v complex128, cmplx bool) complex128 {
+	if v != 0 {
+		return v
+	}
+	if cmplx {
+		return 1 - 1i
+	}
+	return 2
+}
+
+// applyZeroMask writes the exact zeros of mask z into operand o.
+func applyZeroMask(o *opInst, z *zeroMask) int {
+	n := 0
+	set := func(p int) {
+		if p >= 0 && (o.slot[p] == slotValue || o.slot[p] == slotImagDC) {
+			o.in[p] = 0
+			n++
+		}
+	}
+	if o.kind == Vector {
+		for _, i := range z.resolve(o.rows) {
+			set(o.pos(i, 0))
+		}
+		return n
+	}
+	if z.Axis == 0 {
+		for _, i := range z.resolve(o.rows) {
+			for j := 0; j < o.cols; j++ {
+				set(o.pos(i, j))
+			}
+		}
+		return n
+	}
+	for _, j := range z.resolve(o.cols) {
+		for i := 0; i < o.rows; i++ {
+			set(o.pos(i, j))
+		}
+	}
+	return n
 }
 
 // runCall executes one call and returns "" or a description of the first discrepancy.
@@ -430,7 +514,13 @@ func runCall(c *Call, fs fillSpec, inv invoker, st *runStats) string {
 		for p, s := range o.slot {
 			if s == slotValue || s == slotImagDC {
 				o.in[p] = fillValue(fill, k, p, cm)
+				if fs.Zero != nil {
+					o.in[p] = nonZero(o.in[p], cm)
+				}
 			}
+		}
+		if fs.Zero != nil && fs.Zero.Op == k {
+			st.exactZeros += int64(applyZeroMask(o, fs.Zero))
 		}
 		if r.Solve && o.kind.Triangular() && !o.unit {
 			for i := 0; i < o.rows; i++ {
